@@ -205,7 +205,111 @@ def s15_bins(ctx):
     return res
 
 
-STREAMS = [s15_azimuth, s15_sets, s15_bins]
+def run_set_history(ctx, coords, steps, res, stream, case):
+    """Networks built one after the other from the SAME caller's frame, each with its own set definition; each judged on its own traces"""
+    import geopandas as gpd
+    import numpy as np
+    from shapely.geometry import LineString, box
+
+    from fractopo import Network
+
+    frame = gpd.GeoDataFrame({"uid": [f"u{i}" for i in range(len(coords))]}, geometry=[LineString(c) for c in coords])
+    cols_before = list(frame.columns)
+    for si, (ranges, names, area_box, truncate) in enumerate(steps):
+        where = f"step {si + 1}"
+        try:
+            net = Network(trace_gdf=frame, area_gdf=gpd.GeoDataFrame(geometry=[box(*area_box)]), name=f"s{si}", determine_branches_nodes=False,
+                          truncate_traces=truncate, circular_target_area=False, snap_threshold=0.001,
+                          azimuth_set_ranges=tuple(tuple(r) for r in ranges), azimuth_set_names=tuple(names))
+            geoms = list(net.trace_gdf.geometry.values)
+            az = [float(v) for v in np.asarray(net.trace_azimuth_array, dtype=float)]
+            ds = []
+            for g in geoms:
+                (x0, y0), (x1, y1) = g.coords[0][:2], g.coords[-1][:2]
+                ds.append(math.degrees(math.atan2(y1 - y0, x1 - x0)))
+            rs = ctx.driver.batch([f"azimuth d={rat(d)}" for d in ds])
+            spec_az = [float(Fraction(parse_resp(r)["az"])) for r in rs]
+            bad = [(i, a, b) for i, (a, b) in enumerate(zip(az, spec_az)) if circ_dist(a, b) > TOL]
+            if len(az) != len(geoms) or bad:
+                res.disagreements.append(Disagreement(stream, dict(case, failing_step=si), spec_az[:8], az[:8], True, f"{where}: trace azimuths are not the chord azimuths of the network's own traces {bad[:3]}"))
+                return
+            rq = [f"detset v={rat(a)} ranges={';'.join(rat(float(x)) + ',' + rat(float(y)) for x, y in ranges)} names={';'.join(names)} loop=1" for a in az]
+            spec_sets = [parse_resp(r)["set"] for r in ctx.driver.batch(rq)]
+            if any(x == "overlap" for x in spec_sets):
+                res.skipped["value_on_shared_range_end"] = res.skipped.get("value_on_shared_range_end", 0) + 1
+                return
+            want = [x[3:] for x in spec_sets]
+            sets = [str(v) for v in np.asarray(net.trace_azimuth_set_array)]
+            if sets != want:
+                k = next(i for i, (a, b) in enumerate(zip(sets + [None] * len(want), want)) if a != b)
+                res.disagreements.append(Disagreement(stream, dict(case, failing_step=si), want, sets, True,
+                                                      f"{where}: trace {k} with azimuth {az[k] if k < len(az) else None} is assigned to {sets[k] if k < len(sets) else None!r}; the range containing it is {want[k]!r} (ranges {ranges}, names {names})"))
+                return
+            counts = net.trace_azimuth_set_counts
+            lens = [float(g.length) for g in geoms]
+            arrays = net.trace_data.azimuth_set_length_arrays
+            for nm in names:
+                mine = sorted(l for l, w in zip(lens, want) if w == nm)
+                got = sorted(float(v) for v in arrays[nm])
+                if int(counts[nm]) != len(mine) or len(got) != len(mine) or any(abs(a - b) > 1e-9 * max(1.0, b) for a, b in zip(got, mine)):
+                    res.disagreements.append(Disagreement(stream, dict(case, failing_step=si), {"count": len(mine), "lengths": mine[:8]}, {"count": int(counts[nm]), "lengths": got[:8]}, True,
+                                                          f"{where}: set {nm!r}: count / length array do not partition the network's own traces"))
+                    return
+            if sum(int(v) for v in counts.values()) + sum(1 for w in want if w not in names) != len(geoms):
+                res.disagreements.append(Disagreement(stream, dict(case, failing_step=si), len(geoms), dict(counts), True, f"{where}: set counts and the null set do not add up to the number of traces"))
+                return
+        except Exception as e:
+            if truncate and isinstance(e, ValueError) and "Empty trace" in str(e):
+                res.skipped["nothing_inside_the_area"] = res.skipped.get("nothing_inside_the_area", 0) + 1
+                return
+            res.disagreements.append(Disagreement(stream, dict(case, failing_step=si), None, f"{type(e).__name__}: {str(e)[:300]}", True, f"{where}: raised"))
+            return
+    if list(frame.columns) != cols_before:
+        res.distribution["caller_frame_gained_columns"] = res.distribution.get("caller_frame_gained_columns", 0) + 1
+
+
+def s15_network(ctx):
+    """HISTORIES: one caller's trace frame analysed by 2-3 Networks with different azimuth set definitions (and areas); azimuths, set membership,
+    set counts and per-set length arrays of every Network against the specification evaluated on that Network's own traces"""
+    import_fractopo()
+    res = StreamResult("S15-network", rule="frames of 3..10 chords (all directions incl. axis-parallel and diagonal, an interior vertex, half reversed) x histories of 2-3 "
+                       "Network(...) calls on the SAME caller's frame, each with another of the 7 range tuples (names differ per step) and either no truncation, truncation to "
+                       "a containing box or to a box that cuts traces; per Network: trace_azimuth_array = Spec azimuth of its own chords, trace_azimuth_set_array = "
+                       "Spec.detSet of those (Lean), counts and per-set length arrays partition its own traces; non-trivial = every history (the steps use different range tuples and set names)")
+    rng = rng_for(ctx.seed, "S15n")
+    for hi in range(budget(ctx.tier, 40, 800)):
+        cs = chords(rng, 400)
+        n = rng.randint(3, 10)
+        coords = []
+        for k in range(n):
+            dx, dy = rng.choice(cs[:32]) if rng.random() < 0.3 else (rng.uniform(-1, 1), rng.uniform(-1, 1))
+            s_ = rng.choice([1.0, 4.0, 16.0]) / max(abs(dx), abs(dy), 1e-300) if max(abs(dx), abs(dy)) < 1e-3 or max(abs(dx), abs(dy)) > 1e3 else rng.choice([1.0, 4.0, 16.0])
+            dx, dy = dx * s_, dy * s_
+            ox, oy = rng.randint(-160, 160) / 4, rng.randint(-160, 160) / 4
+            c = [(ox, oy), (ox + dx / 3 - dy / 8, oy + dy / 3 + dx / 8), (ox + dx, oy + dy)]
+            if c[0] == c[-1]:
+                continue
+            coords.append(c[::-1] if k % 2 else c)
+        if len(coords) < 2:
+            continue
+        steps = []
+        order = rng.sample(range(len(RANGE_SETS)), rng.randint(2, 3))
+        for j, ri in enumerate(order):
+            ranges, label = RANGE_SETS[ri]
+            names = [f"{'abc'[j]}{i}" for i in range(len(ranges))]
+            mode = rng.choice(["notrunc", "notrunc", "trunc_all", "trunc_cut"])
+            area_box = (-30.0, -28.0, 31.0, 27.0) if mode == "trunc_cut" else (-100.0, -100.0, 100.0, 100.0)
+            steps.append(([list(map(float, r)) for r in ranges], names, area_box, mode != "notrunc"))
+            res.distribution[mode] = res.distribution.get(mode, 0) + 1
+        res.evaluations += 1
+        res.nontrivial += 1
+        case = {"stream": "S15-network", "coords": coords, "steps": steps}
+        run_set_history(ctx, coords, steps, res, "S15-network", case)
+    res.samples = [{"histories": res.evaluations}]
+    return res
+
+
+STREAMS = [s15_azimuth, s15_sets, s15_bins, s15_network]
 
 
 def _f4_public_api():
@@ -248,6 +352,11 @@ def replay(ctx, stream, case):
         except ValueError:
             got = "overlap"
         return None if got == spec else Disagreement(stream, case, spec, got, True)
+    if stream == "S15-network":
+        res = StreamResult("replay")
+        run_set_history(ctx, [[tuple(p) for p in c] for c in case["coords"]], [(a, b, tuple(c), d) for a, b, c, d in case["steps"]], res, stream,
+                        {k: v for k, v in case.items() if k != "failing_step"})
+        return res.disagreements[0] if res.disagreements else None
     for fn in STREAMS:
         r = fn(ctx)
         if r.name == stream and r.disagreements:
